@@ -288,8 +288,10 @@ EXTRA = {
            'with per-consumer rules, both against fresh-process results.',
     'C15': ' Also a sharer the quantizer does not know (MAXIMUM) and tied '
            'constants carrying the same name in two subgraphs.',
-    'C16': ' Also byte-identical constant buffers and float models that already '
-           'store their constants outside the flatbuffer.',
+    'C16': ' Also byte-identical constant buffers, float models that already '
+           'store their constants outside the flatbuffer, and a zero-element '
+           'constant (data present, length 0) next to ordinary ones: it must '
+           'select no byte and must not shift the other offsets.',
     'C17': ' Also dequantization of 32/64-bit codes.',
     'C19': ' Also pairs of equal-structure subgraphs, recipes scoped by one '
            'subgraph\'s name prefix, and constants with identical names.',
